@@ -101,6 +101,10 @@ func (c17) Plan(tier string) []fw.Unit {
 		shards = 16
 	}
 	us := planEnum("C17", tier, len(c17Preds()), shards)
+	us = append(us, fw.Unit{Check: "C17", Kind: "key-pairs", Tier: tier, Spec: fw.Spec(enumSpec{})})
+	// strategy block without a timeout, a window output buffer of one result, a sink taking 20 ms per batch, rows fed
+	// back to back: the window must wait for its consumer (predicates count(*) >= 1 and count(*) >= 2)
+	us = append(us, fw.Unit{Check: "C17", Kind: "block", Tier: tier, Spec: fw.Spec(enumSpec{Cfg: 0})}, fw.Unit{Check: "C17", Kind: "block", Tier: tier, Spec: fw.Spec(enumSpec{Cfg: 1})})
 	return append(us, fw.Unit{Check: "C17", Kind: "typed", Tier: tier, Spec: fw.Spec(enumSpec{})})
 }
 
@@ -192,8 +196,17 @@ func (c17) Run(u fw.Unit) fw.Result {
 	if u.Kind == "typed" {
 		return c17Typed()
 	}
+	if u.Kind == "key-pairs" {
+		return c17KeyPairs()
+	}
 	sp := parseEnum(u)
-	p := c17Preds()[sp.Cfg]
+	block := u.Kind == "block"
+	var p c17Pred
+	if block {
+		p = c17Cmp("count(*)", ">=", float64(sp.Cfg+1))
+	} else {
+		p = c17Preds()[sp.Cfg]
+	}
 	a := newAcc("C17", "det-global")
 	sql := "SELECT k, count(*) AS c, sum(v) AS s, avg(v) AS a FROM stream GROUP BY k, GLOBAL WINDOW TRIGGER WHEN " + p.SQL
 	maxL := 4
@@ -266,7 +279,15 @@ func (c17) Run(u fw.Unit) fw.Result {
 						want = append(want, strings.TrimPrefix(w, "a"))
 					}
 				}
-			r := detExec(sql, detOpts{Eager: true, Horizon: 100 * vtime.Millisecond}, func(e *Env) {
+			opts := detOpts{Eager: true, Horizon: 100 * vtime.Millisecond}
+			if block {
+				perf := smallPerf("block", 64, 64, 1)
+				opts = detOpts{Eager: false, Horizon: 2 * vtime.Second, Perf: &perf, SinkDelay: 20 * vtime.Millisecond}
+				if run != 0 {
+					continue
+				}
+			}
+			r := detExec(sql, opts, func(e *Env) {
 				for _, row := range rows {
 					e.Emit(copyVal(row).(map[string]any))
 					if run == 1 {
